@@ -235,6 +235,7 @@ pub fn demo() {
         file_ops: vec![],
         tz: None,
         outage: None,
+        winsz_ops: vec![],
         ev_delay_us: vec![],
         connects: vec![KConnect { outcome: KOutcome::Accept, segments: segs, close_at_us: None, rst: false, eintr_reads: vec![] }],
         events: vec![
